@@ -397,6 +397,16 @@ class DataFileManager:
         # a second time against the table root and produce /base/base/file.
         return open(validated, "rb")
 
+    @staticmethod
+    def _reject_table_root(path: str, resolved: str, base_path: str) -> None:
+        """'', '.', 'data/..' resolve to the table root itself: not a file, and
+        dirname() of the root is its PARENT, where a writer would stage its temp
+        file - outside the table."""
+        if resolved == base_path:
+            raise ValueError(
+                f"Security Error: path '{path}' resolves to the table root, not to a file inside it"
+            )
+
     def _get_arrow_path(self, path: str) -> str:
         """Convert a manifest path to a PyArrow path (bucket/key for S3, absolute for local).
 
@@ -420,7 +430,9 @@ class DataFileManager:
                 # Iceberg-style ('/data/x.parquet') or plain relative
                 # ('data/x.parquet'): table-relative, resolved and
                 # boundary-checked by the storage backend.
-                return self.storage._resolve_path(path)
+                resolved = self.storage._resolve_path(path)
+                self._reject_table_root(path, resolved, base_path)
+                return resolved
 
             # A true absolute path (e.g. from a caller holding the real
             # location of a file it just wrote) is honoured ONLY if it lies
@@ -436,6 +448,7 @@ class DataFileManager:
                     f"Security Error: Path traversal attempt detected. Resolved path "
                     f"'{resolved}' is outside table root '{base_path}'"
                 )
+            self._reject_table_root(path, resolved, base_path)
             return resolved
 
         # Unknown backend: fall back to a table-root join (no escape either).
